@@ -64,7 +64,7 @@ def run_job(prog, job):
         res['discharged'] = P.discharged
         res['samples'].append({'sub_claim': 'parity', 'paths': len(leaves)})
         return res
-    if kind in ('lat-range', 'lon-range', 'nl-consistency', 'fmod-side'):
+    if kind in ('lat-range', 'lat-far', 'lon-range', 'nl-consistency', 'fmod-side'):
         pa, pb = job['order']
         sym, a, b, ex, leaves = explore(prog, pa, pb)
         T.note(res, ex)
@@ -82,9 +82,15 @@ def run_job(prog, job):
         res['obligations'] = 1
         t = time.time()
         if kind == 'lat-range':
-            bad = z3.Or(z3.fpGT(lat, z3.FPVal(90.0, F64)), z3.fpLT(lat, z3.FPVal(-90.0, F64)), z3.fpIsNaN(lat))
-            desc = 'latitude outside [-90, 90]'
+            # the recorded finding K-C05-latitude-range: candidates in (90, 270) are returned unchanged
+            bad = z3.And(z3.fpGT(lat, z3.FPVal(90.0, F64)), z3.fpLT(lat, z3.FPVal(270.0, F64)))
+            desc = 'latitude in (90, 270)'
             role = 'latitude-range'
+        elif kind == 'lat-far':
+            # everything else outside [-90, 90] is a different violation (never part of the known finding)
+            bad = z3.Or(z3.fpGEQ(lat, z3.FPVal(270.0, F64)), z3.fpLT(lat, z3.FPVal(-90.0, F64)), z3.fpIsNaN(lat))
+            desc = 'latitude >= 270, < -90 or NaN'
+            role = 'latitude-wrap'
         elif kind == 'lon-range':
             bad = z3.Or(z3.fpGEQ(lon, z3.FPVal(180.0, F64)), z3.fpLT(lon, z3.FPVal(-180.0, F64)), z3.fpIsNaN(lon))
             desc = 'longitude outside [-180, 180)'
@@ -120,15 +126,19 @@ def run_job(prog, job):
         assertions = list(s.assertions())
         r = z3.unknown
         m_hint = None
-        if kind == 'nl-consistency':
-            s1 = z3.Solver()
-            s1.set('timeout', 60000)
-            for x in assertions:
-                s1.add(x)
-            s1.add(z3.BitVec('b_lat', 17) == 0, z3.BitVec('a_lon', 17) == 0, z3.BitVec('b_lon', 17) == 0)
-            r = s1.check()
-            if r == z3.sat:
-                m_hint = s1.model()
+        if kind in ('nl-consistency', 'lat-range'):
+            # witness search for the recorded findings: try small sub-spaces first (any model is replayed natively)
+            zero = lambda n: z3.BitVec(n, 17) == 0     # noqa: E731
+            for hint in ([zero('b_lat'), zero('a_lon'), zero('b_lon')], [zero('a_lat'), zero('a_lon'), zero('b_lon')]):
+                s1 = z3.Solver()
+                s1.set('timeout', 45000)
+                for x in assertions:
+                    s1.add(x)
+                s1.add(*hint)
+                r = s1.check()
+                if r == z3.sat:
+                    m_hint = s1.model()
+                    break
         if r != z3.sat:
             s = z3.Solver()
             s.set('timeout', job.get('timeout_ms', 120000))
@@ -305,7 +315,9 @@ def replay(v):
         r = V.native([req], profile)[0]
         v.setdefault('native', {})[profile] = r
         if v.get('expect') == 'lat-range':
-            ok &= bool(r.get('some')) and not (-90.0 <= r.get('lat', 0) <= 90.0)
+            ok &= bool(r.get('some')) and (90.0 < r.get('lat', 0) < 270.0)
+        elif v.get('expect') == 'lat-far':
+            ok &= bool(r.get('some')) and not (-90.0 <= r.get('lat', 0) < 270.0)
         elif v.get('expect') == 'lon-range':
             ok &= bool(r.get('some')) and not (-180.0 <= r.get('lon', 0) < 180.0)
         elif v.get('expect') == 'nl-consistency':
@@ -325,7 +337,7 @@ def main(tier):
     files, dirs, info = fw.dump_all(['adsb_deku'])
     to = 120000 if tier == 'quick' else 900000
     jobs = [{'kind': 'parity'}, {'kind': 'nl-table'}]
-    kinds = ('lat-range', 'nl-consistency') if tier == 'quick' else ('lat-range', 'nl-consistency', 'fmod-side', 'lon-range')
+    kinds = ('lat-range', 'lat-far', 'nl-consistency') if tier == 'quick' else ('lat-range', 'lat-far', 'nl-consistency', 'fmod-side', 'lon-range')
     for order in ((0, 1), (1, 0)):
         for k in kinds:
             jobs.append({'kind': k, 'order': list(order), 'timeout_ms': to})
